@@ -14,9 +14,20 @@ LEVEL = 'proof'
 NEEDS = ['CorrTopoSort', 'TopoSort', 'TopoSortProofs', 'SFTopo', 'Extracted', 'SourceFacts', 'Bridge', 'BridgeProofs', 'Base', 'Names', 'Graph', 'GraphObs', 'GraphTS', 'GraphInv', 'GraphLemmas', 'GraphInvProofs', 'Queries', 'QueriesProofs']
 
 
+def name_lag(identifier):
+    """the time a node NAME stands for, read off the identifier alone (independent of the library's parser and of the node's tag)"""
+    m = __import__('re').search(r' (lag|future)\(n=(\d+)\)\n?$', identifier)
+    if not m:
+        return 0
+    return -int(m.group(2)) if m.group(1) == 'lag' else int(m.group(2))
+
+
 def time_ok(g):
     for e in g.get_edges():
         s, d = e.source, e.destination
+        if name_lag(s.identifier) > name_lag(d.identifier):
+            return (f'stored edge {s.identifier!r} {e.get_edge_type()} {d.identifier!r} points backwards in time by the node names '
+                    f'({name_lag(s.identifier)} > {name_lag(d.identifier)})')
         if s.time_lag > d.time_lag:
             return f'stored edge {s.identifier!r} {e.get_edge_type()} {d.identifier!r} points backwards in time ({s.time_lag} > {d.time_lag})'
     return None
